@@ -64,7 +64,7 @@ GNext == /\ ~Terminal(st)
 
 GSpec == GInit /\ [][GNext]_gvars
 
-Emit == Terminal(st) => PrintT("CASE " \o ToJson([db |-> PDb(b1, b2), query |-> Contexts[ctx], qv |-> 3, events |-> hist]))
+Emit == Judged(st) => PrintT("CASE " \o ToJson([db |-> PDb(b1, b2), query |-> Contexts[ctx], qv |-> 3, events |-> hist]))
 Bound == Len(hist) < 80 /\ Len(st.bind) < 300
 
 \* --- properties of the machine checked on every state of every skeleton (U1) ---
